@@ -11,6 +11,7 @@ import (
 	"cosmossdk.io/math"
 
 	sdk "github.com/cosmos/cosmos-sdk/types"
+	minttypes "github.com/cosmos/cosmos-sdk/x/mint/types"
 
 	"verif/mc/engine"
 	"verif/mc/env"
@@ -247,6 +248,16 @@ func (c Isolation) NewWorker(stats *engine.Stats) (engine.Worker, error) {
 		other := map[string]string{"1": "10", "10": "1"}[id]
 		p.K.SetConsumerRewardsAllocationByDenom(st.Ctx, id, ibcDenom(other), providertypes.ConsumerRewardsAllocation{
 			Rewards: sdk.NewDecCoins(sdk.NewDecCoinFromDec(ibcDenom(other), math.LegacyNewDec(77)))})
+	}
+	// the credits are backed by coins in the consumer rewards pool, so that payouts really happen
+	for _, id := range []string{"10", "1"} {
+		coins := sdk.NewCoins(sdk.NewInt64Coin(ibcDenom(id), 177))
+		if err := p.PApp.BankKeeper.MintCoins(st.Ctx, minttypes.ModuleName, coins); err != nil {
+			return nil, err
+		}
+		if err := p.PApp.BankKeeper.SendCoinsFromModuleToModule(st.Ctx, minttypes.ModuleName, providertypes.ConsumerRewardsPool, coins); err != nil {
+			return nil, err
+		}
 	}
 	if err := blk(); err != nil {
 		return nil, err
